@@ -42,6 +42,10 @@ THE SOFTWARE.
 #  include <omp.h>
 #endif
 
+#ifdef AMGCL_VERIF
+namespace amgcl { namespace verif { struct access; } }
+#endif
+
 namespace amgcl {
 namespace relaxation {
 
@@ -133,6 +137,9 @@ struct gauss_seidel {
         return b;
     }
 
+#ifdef AMGCL_VERIF
+    friend struct amgcl::verif::access;
+#endif
     private:
         static int num_threads() {
 #ifdef _OPENMP
